@@ -377,6 +377,85 @@ def blank_line_resets_event(P: Project, R: Report, module: str, rule: str) -> in
     return n
 
 
+def field_form_event_reset(P: Project, R: Report, module: str, rule: str) -> int:
+    """The same obligation as `blank_line_resets_event` for a recogniser written over (field, value) pairs, possibly as a
+    small class of its own:   field, _, value = line.partition(":") … if field == "event": self._event = value …
+    and a blank-line arm that may do its work through a method of the same class (`self._end_of_block()`): the place an
+    `event` field stores the name in is cleared on every path through the blank-line handling."""
+    n = 0
+    for f in P.funcs_in(module):
+        ev_targets, line_var = set(), None
+        for x in walk_local(f.node):
+            if isinstance(x, ast.If) and isinstance(x.test, ast.Compare) and len(x.test.ops) == 1 and isinstance(x.test.ops[0], ast.Eq):
+                sides = [x.test.left, x.test.comparators[0]]
+                if any(isinstance(s_, ast.Constant) and s_.value == "event" for s_ in sides) and any(isinstance(s_, ast.Name) for s_ in sides):
+                    for s_ in walk_local(ast.Module(body=x.body, type_ignores=[])):
+                        if isinstance(s_, ast.Assign) and len(s_.targets) == 1 and isinstance(s_.targets[0], (ast.Name, ast.Attribute)):
+                            ev_targets.add(ast.unparse(s_.targets[0]))
+        if not ev_targets:
+            continue
+        # the line variable: what the field was cut from (`line.partition(":")` / `line.split(":", 1)`)
+        for x in walk_local(f.node):
+            if isinstance(x, ast.Call) and isinstance(x.func, ast.Attribute) and x.func.attr in ("partition", "split") and x.args and isinstance(x.args[0], ast.Constant) and x.args[0].value == ":" and isinstance(x.func.value, ast.Name):
+                line_var = x.func.value.id
+        if line_var is None:
+            raise AnalysisError(f"{f.module.rel}: {f.qual} reads `event` fields but the line they are cut from was not found")
+        blank = None
+        for x in walk_local(f.node):
+            if isinstance(x, ast.If):
+                tt = ast.unparse(x.test)
+                if tt in (f"not {line_var}", f"{line_var} == ''", f"len({line_var}) == 0"):
+                    blank = x.body
+                elif tt == line_var and x.orelse:
+                    blank = x.orelse
+                if blank is not None:
+                    break
+        if blank is None:
+            raise AnalysisError(f"{f.module.rel}: {f.qual} sets the event name from `event` fields but its blank-line handling is written in a shape this rule cannot read")
+        sibs = {g.name: g for g in P.funcs.values() if g.cls is not None and g.cls is f.cls and g.parent is None} if f.cls is not None else {}
+        top = f
+        while top.parent is not None:
+            top = top.parent
+        nested = {g.name: g for g in P.funcs.values() if g.parent is not None and (g.parent is f or g.parent is top) and g is not f}
+        for E in sorted(ev_targets):
+            def sev(stmt, st, an, E=E):
+                if isinstance(stmt, ast.Assign):
+                    for t_ in stmt.targets:
+                        pairs = [(t_, stmt.value)]
+                        if isinstance(t_, ast.Tuple) and isinstance(stmt.value, ast.Tuple) and len(t_.elts) == len(stmt.value.elts):
+                            pairs = list(zip(t_.elts, stmt.value.elts))
+                        for tt_, v in pairs:
+                            if ast.unparse(tt_) == E:
+                                return ["reset" if isinstance(v, ast.Constant) and v.value in (None, "") else "set"]
+                return []
+
+            def summary(g, depth=0):
+                """'reset' if every way out of the method has cleared E last, 'set' if every way out has stored something else
+                last, None if it never touches E, 'maybe' otherwise"""
+                ga, go = run_paths(g.node, stmt_event_of=sev, event_of=(lambda c, st, an: cev(c, st, an, depth + 1)) if depth < 2 else None, fallible=False)
+                outs = [st for st, _n in go.ret] + list(go.normal)
+                last = {(st.events[-1] if st.events else None) for st in outs}
+                return next(iter(last)) if len(last) == 1 else "maybe"
+
+            def cev(call, st, an, depth=0):
+                nm = call_name(call)
+                if nm.startswith("self.") and nm[5:] in sibs and sibs[nm[5:]] is not f:
+                    return summary(sibs[nm[5:]], depth)
+                if isinstance(call.func, ast.Name) and call.func.id in nested:
+                    return summary(nested[call.func.id], depth)  # a closure of the recogniser (an object's method read as one)
+                return None
+
+            ba, bo = run_paths(ast.Module(body=blank, type_ignores=[]), stmt_event_of=sev, event_of=cev, fallible=False)
+            ends = list(bo.normal) + list(bo.cont) + [st for st, _n in bo.ret]
+            bad = [st for st in ends if not st.events or st.events[-1] != "reset"]
+            n += 1
+            R.fn(f.fq)
+            R.ob(rule, f"{f.qual}: a blank line resets the pending event name `{E}` on every path", not bad, f"{f.module.rel}:{blank[0].lineno}",
+                 f"a path through the blank-line handling leaves `{E}` as it was (what it does last about it: {bad[0].events[-1] if bad and bad[0].events else 'nothing'}): the name of an event that carried no data (`event: keepalive` + empty data + blank line) is applied to the next event, and a message framed as a default-type event right after it is dropped as an unknown type",
+                 sample=f"{rule} {f.qual}: blank line → {E} cleared on all {len(ends)} paths")
+    return n
+
+
 def _slice(stmts, names):
     """The statements that mention one of `names`, with the control structure around them."""
     out = []
@@ -730,6 +809,7 @@ def check(P: Project, R: Report) -> None:
 
     # a blank line ends the event: whatever name an `event:` line set does not survive it, dispatched or not
     blank_line_resets_event(P, R, A.MOD_HTTP, "R2")
+    field_form_event_reset(P, R, A.MOD_HTTP, "R2")
 
     # chunk- and terminator-independence of the two http recognisers
     from . import _chunks
